@@ -361,11 +361,23 @@ func vpH_c19_obs_verify() {
 		Matrix:  &pipeline.Matrix{Setup: pipeline.MatrixSetup{"os": {"b", "a"}, "none": nil}},
 	}
 	penv := map[string]string{"P": "1", "A": "2"}
+	base := map[string]string{"B": "0"}
+	// the options in the shapes a caller may give them: one env, an env after
+	// another one, with or without debug signing
+	var opts []Option
+	shape := vpInt(0, 3)
+	if shape&1 != 0 {
+		opts = append(opts, WithEnv(base))
+	}
+	opts = append(opts, WithEnv(penv))
+	if shape&2 != 0 {
+		opts = append(opts, WithLogger(&vpLogger{}), WithDebugSigning(true))
+	}
 	s := vpSigSigner(1)
-	before, benv := vpSnapshot(step), vpSnapshot(penv)
-	sig, err := Sign(ctx, s, &CommandStepWithInvariants{CommandStep: *step, RepositoryURL: "r"}, WithEnv(penv))
+	before, benv, bbase := vpSnapshot(step), vpSnapshot(penv), vpSnapshot(base)
+	sig, err := Sign(ctx, s, &CommandStepWithInvariants{CommandStep: *step, RepositoryURL: "r"}, opts...)
 	vpAssume(err == nil && sig != nil)
-	vpAssert(vpUnchanged(step, before) && vpUnchanged(penv, benv), "signing writes nothing into the step (plugins, matrix, env) or the caller's env map")
+	vpAssert(vpUnchanged(step, before) && vpUnchanged(penv, benv) && vpUnchanged(base, bbase), "signing writes nothing into the step (plugins, matrix, env) or the caller's env maps")
 	// the same signature with its field list in another order (the list itself is not signed)
 	rec := &pipeline.Signature{Algorithm: sig.Algorithm, Value: sig.Value}
 	n := len(sig.SignedFields)
@@ -380,8 +392,8 @@ func vpH_c19_obs_verify() {
 		rec.SignedFields = append(append([]string{}, sig.SignedFields[1:]...), sig.SignedFields[0])
 	}
 	brec := vpSnapshot(rec)
-	verr := Verify(ctx, rec, s, &CommandStepWithInvariants{CommandStep: *step, RepositoryURL: "r"}, WithEnv(penv))
+	verr := Verify(ctx, rec, s, &CommandStepWithInvariants{CommandStep: *step, RepositoryURL: "r"}, opts...)
 	vpAssert(verr == nil, "the order of the signed-field list does not matter for verification")
 	vpAssert(vpUnchanged(rec, brec), "verifying writes nothing into the signature record (the field list keeps its order)")
-	vpAssert(vpUnchanged(step, before) && vpUnchanged(penv, benv), "verifying writes nothing into the step or the env map")
+	vpAssert(vpUnchanged(step, before) && vpUnchanged(penv, benv) && vpUnchanged(base, bbase), "verifying writes nothing into the step or the env maps")
 }
